@@ -30,6 +30,11 @@ for commit, entries in by_commit.items():
     sh(f"rsync -a --exclude .git --exclude __pycache__ /repo/ {tree}/")
     rv = sh(f"git -C /repo show {commit} -- unyt | (cd {tree} && git apply -R -p1)")
     how = "reverse-applied on the current tree"
+    # a later repair may have removed what an older replay needs in order to fire (the float64 table entries of
+    # 647f950's replay were turned into plain floats by 6e4ac32): such entries name the commits to revert with it
+    for extra in sorted({c for e in entries for c in e.get("also_revert", [])}):
+        rx = sh(f"git -C /repo show {extra} -- unyt | (cd {tree} && git apply -R -p1)")
+        how += f" (+ {extra} reverted" + ("" if rx.returncode == 0 else ", FAILED") + ")"
     if rv.returncode != 0:
         shutil.rmtree(tree, ignore_errors=True)
         os.makedirs(tree)
